@@ -37,7 +37,9 @@ type CachedLoader struct {
 }
 
 func (l *CachedLoader) Load(uri, parentURI string) (*Schema, error) {
-	if schema, ok := l.cache[uri]; ok {
+	key := cacheKey(uri, parentURI)
+
+	if schema, ok := l.cache[key]; ok {
 		return schema, nil
 	}
 
@@ -46,9 +48,23 @@ func (l *CachedLoader) Load(uri, parentURI string) (*Schema, error) {
 		return nil, errors.Join(ErrCannotLoadSchema, err)
 	}
 
-	l.cache[uri] = schema
+	l.cache[key] = schema
 
 	return schema, nil
+}
+
+// cacheKey tells apart equal relative file names that are written in documents of different directories.
+func cacheKey(uri, parentURI string) string {
+	if r, err := GetRefType(uri); err != nil || r != RefTypeFile {
+		return uri
+	}
+
+	fileName := strings.TrimPrefix(uri, "file://")
+	if filepath.IsAbs(fileName) {
+		return uri
+	}
+
+	return filepath.Join(filepath.Dir(parentURI), fileName)
 }
 
 func NewFileLoader(resolveExtensions, yamlExtensions []string) *FileLoader {
